@@ -2,6 +2,7 @@ import Driver.Pure
 import Driver.Seq
 import Driver.Crash
 import Driver.HostFileMode
+import Driver.LinMode
 import Qv.Spec.Image
 
 open Qv.Driver
@@ -37,6 +38,11 @@ def main (args : List String) : IO UInt32 := do
     runSeq dir lines stdout
     return 0
   | ["valid"] => validLoop stdin stdout; return 0
+  | ["lin", path] =>
+    let lines ← IO.FS.lines path
+    let dir := (System.FilePath.parent path).map (·.toString) |>.getD "."
+    runLin dir lines stdout
+    return 0
   | ["hostfile", path] =>
     let lines ← IO.FS.lines path
     runHostFile lines stdout
